@@ -102,9 +102,11 @@ func vcyc(value, n int) int {
 //@   loop 1 invariant forall(i, left, right + 1, a[i] == old(a[i]))
 //@   loop 1 decreases right - left + 1
 
-// Validate: the symbol-count minima of css-counter-styles-3 §3.1.
+// Validate: the symbol-count minima of css-counter-styles-3 §3.1. (Also C01: the renderers index their symbol
+// list on the strength of these minima - numeric reads symbols[0] for the value 0 - so accepting a style
+// without symbols is a crash when it is rendered.)
 //@ func (*CounterStyleDescriptors).Validate
-//@   props C19
+//@   props C19 C01
 //@   nopanic
 //@   requires desc != nil
 //@   ensures result == nil && desc.System.Extends == "" && (desc.System.System == "cyclic" || desc.System.System == "fixed" || desc.System.System == "symbolic") ==> len(desc.Symbols) >= 1
